@@ -4,6 +4,7 @@ import (
 	"context"
 	"encoding/base64"
 	"encoding/json"
+	"errors"
 	"fmt"
 	"net/http"
 	"reflect"
@@ -53,12 +54,19 @@ func UnmarshalCursor[Options any](v string, modifiers ...func(query *InitialPagi
 	if err := json.Unmarshal(res, &q); err != nil {
 		return nil, err
 	}
+	if q == nil {
+		return nil, errors.New("invalid cursor")
+	}
 
 	var root *InitialPaginatedQuery[Options]
 	if x.Offset != nil { // Offset defined, this is an offset cursor
 		root = &q.(*OffsetPaginatedQuery[Options]).InitialPaginatedQuery
 	} else {
-		root = &q.(*ColumnPaginatedQuery[Options]).InitialPaginatedQuery
+		columnQuery := q.(*ColumnPaginatedQuery[Options])
+		if columnQuery.PaginationID != nil && columnQuery.Bottom == nil {
+			return nil, errors.New("invalid cursor: missing bottom")
+		}
+		root = &columnQuery.InitialPaginatedQuery
 	}
 
 	for _, modifier := range modifiers {
